@@ -650,6 +650,15 @@ def r07l(ctx: Context) -> None:
         """'<name>.is_<kind>' -> 'is_<kind>'"""
         if isinstance(part, ast.Attribute) and isinstance(part.value, ast.Name) and part.value.id == name and part.attr.startswith("is_"):
             return part.attr
+        if isinstance(part, ast.Attribute) and isinstance(part.value, ast.Name) and part.value.id == name and part.attr in ("line_number", "column_number"):
+            return "is_positioned"  # a truthy line / column is a position
+        if isinstance(part, ast.Compare) and len(part.ops) == 1 and isinstance(part.ops[0], (ast.Gt, ast.GtE, ast.NotEq)) and kind_of(part.left, name) == "is_positioned" \
+                and isinstance(part.comparators[0], ast.Constant) and part.comparators[0].value in (0, 1):
+            return "is_positioned" if not (isinstance(part.ops[0], ast.GtE) and part.comparators[0].value == 0) else None
+        if isinstance(part, ast.Call) and isinstance(part.func, ast.Name) and part.func.id == "isinstance" and len(part.args) == 2 and isinstance(part.args[0], ast.Name) and part.args[0].id == name:
+            classes = [dotted(c) or "" for c in (part.args[1].elts if isinstance(part.args[1], ast.Tuple) else [part.args[1]])]
+            if classes and all(c and c.split(".")[-1] not in ("MarkdownToken", "EndMarkdownToken", "EndOfStreamToken", "PragmaToken", "object") for c in classes):
+                return "is_" + "_or_".join(c.split(".")[-1] for c in classes)
         return None
 
     def alternative_kind(part: ast.AST, name: str) -> Optional[str]:
